@@ -341,3 +341,7 @@ Example C08_nonvacuous_leave_and_return_equal :
   map (fun c => (cc_kind c, cc_new c)) cs = [(KAdd, Some (mkF 1 0 0)); (KRemove, None); (KAdd, Some (mkF 1 0 0))] /\
   Pull.fold_view cs = c_list fr_filter s2 None (Some (interp_pred (PFieldGe Fa 1))).
 Proof. vm_compute. split; reflexivity. Qed.
+
+(* Print Assumptions for every theorem above that did not have its own line yet *)
+Print Assumptions C08_polarity_v0_refuted.
+Print Assumptions C08_absent_v0_refuted.
